@@ -51,7 +51,7 @@ PROPS = {
                      "reference); all 128 option words on both encodings must throw NotImplementedException unless implemented; "
                      "non-trivial = L(A) non-empty",
                 assumptions=PROOF_ASSUME),
-    "C08": dict(level="proof", cli=dict(kinds=[("cliop_c08", 1)], quick=150, thorough=4000), kinds=[("bddh", 12), ("bddtd", 2), ("ordvec", 1), ("glue", 1), ("bddpre", 4)], n=dict(quick=3400, thorough=200000, search=3000),
+    "C08": dict(level="proof", cli=dict(kinds=[("cliop_c08", 1)], quick=150, thorough=4000), kinds=[("bddh", 12), ("bddtd", 2), ("ordvec", 1), ("glue", 1), ("bddpre", 4), ("bddload", 1)], n=dict(quick=3500, thorough=200000, search=3000),
                 rule="histories over a pool of automata in one BDD encoding (bottom-up or top-down): load from Timbuk text, "
                      "copy, assign, destroy, load into an existing automaton (AddTransition on a possibly shared table), "
                      "SetStateFinal, Union, UnionDisjointStates, Intersection, RemoveUnreachableStates, RemoveUselessStates; "
@@ -112,7 +112,7 @@ PROPS = {
                      "by operations on other handles, and after destroying every handle both tables are back to their initial "
                      "sizes; ASan reports use-after-free / double free; non-trivial = at least one apply in the history",
                 assumptions=PROOF_ASSUME),
-    "C13": dict(level="proof", kinds=[("parse", 24), ("nfah_ops", 2), ("bddh", 1), ("glue", 1), ("nfas", 1)], n=dict(quick=14000, thorough=200000, search=13000),
+    "C13": dict(level="proof", kinds=[("parse", 24), ("nfah_ops", 2), ("bddh", 1), ("glue", 1), ("nfas", 1), ("bddload", 1)], n=dict(quick=14400, thorough=200000, search=13000),
                 rule="texts: valid files with adversarial names, ranked tree automata, word automata, byte- and token-level "
                      "mutations of them, keyword soups, random bytes (incl. NUL, 0x80, 0xff, VT, FF, CR), shipped small files and "
                      "their mutations; TimbukParser::ParseString is compared with the model parser (accept / throw, the whole "
